@@ -4,6 +4,7 @@ import (
 	"fmt"
 	"math/rand/v2"
 	"sort"
+	"strings"
 	"time"
 
 	"verifsim/core"
@@ -197,6 +198,11 @@ func genC17(s uint64, idx int) *Plan {
 	p.RequireECH = core.Chance(r, 2, 5)
 	if core.Chance(r, 3, 10) {
 		p.PublicName = core.Pick(r, []string{"public.example", "bootstrap.front.example", "x.y"})
+		if core.Chance(r, 1, 12) {
+			// a public name no ECH config can carry (more than 255 octets):
+			// Dial has to refuse it - and leave nothing behind
+			p.PublicName = strings.Repeat("p", 300) + ".example"
+		}
 	}
 	switch x := r.IntN(100); {
 	case x < 10:
